@@ -163,7 +163,7 @@ def tmp_seed_typestate(ctx, rule='C09-R3'):
     p = ctx.project
     f = p.func(TMP_SEED, rule)
     ctx.saw(f)
-    evs = fx.own_events(TMP_SEED)
+    evs = fx.deep_events(TMP_SEED)
     ctx.check('contextlib.contextmanager' in f.decorators, rule, TMP_SEED, f.node.name, f.loc(),
               'tmp_seed is not a contextlib.contextmanager generator', instance='is a context manager')
     gets = [e for e in evs if e.kind == 'call' and call_head(e) == 'numpy.random.get_state']
